@@ -395,7 +395,7 @@ func (s *sqlRun) selectQ(t *tableDef, p *pred, proj []int, sync bool) {
 	sql := "SELECT " + cols + " FROM " + t.name + where(p, t) + ";"
 	ev := map[string]interface{}{"ev": "Select", "t": t.name, "pred": p.json(), "proj": proj}
 	ev["plan"] = s.e.PlanOf(sql)
-	s.scanInfo(ev)
+	s.scanInfo(ev, t)
 	r := s.stmt(ev, sql)
 	ev["rows"] = rowsToRanksT(t, proj, r.Rows)
 	if sync {
@@ -406,17 +406,20 @@ func (s *sqlRun) selectQ(t *tableDef, p *pred, proj []int, sync bool) {
 
 // scanInfo records the interval of the plan's index range scan (ranks; -2 = open end) and whether the
 // predicate is re-checked above it, for the plan-level clause of C06 (spec/RangeDerivation).
-func (s *sqlRun) scanInfo(ev map[string]interface{}) {
+func (s *sqlRun) scanInfo(ev map[string]interface{}, t *tableDef) {
 	if len(s.e.LastScans) != 1 {
 		return
 	}
 	si := s.e.LastScans[0]
+	if si.Col < 0 || si.Col >= len(t.cols) {
+		return
+	}
 	lo, hi := -2, -2
 	if si.Lo != nil {
-		lo = rankOf(si.Lo)
+		lo = colRank(t.cols[si.Col], si.Lo)
 	}
 	if si.Hi != nil {
-		hi = rankOf(si.Hi)
+		hi = colRank(t.cols[si.Col], si.Hi)
 	}
 	if lo == -99 || hi == -99 || lo == -1 || hi == -1 {
 		return
@@ -439,7 +442,7 @@ func (s *sqlRun) update(t *tableDef, set [][2]int, p *pred) {
 	sql := "UPDATE " + t.name + " SET " + strings.Join(parts, ", ") + where(p, t) + ";"
 	ev := map[string]interface{}{"ev": "Update", "t": t.name, "pred": p.json(), "set": sj}
 	ev["plan"] = s.e.PlanOf(sql)
-	s.scanInfo(ev)
+	s.scanInfo(ev, t)
 	s.stmt(ev, sql)
 	s.emit(ev)
 }
@@ -451,7 +454,7 @@ func (s *sqlRun) delete(t *tableDef, p *pred) {
 	sql := "DELETE FROM " + t.name + where(p, t) + ";"
 	ev := map[string]interface{}{"ev": "Delete", "t": t.name, "pred": p.json()}
 	ev["plan"] = s.e.PlanOf(sql)
-	s.scanInfo(ev)
+	s.scanInfo(ev, t)
 	s.stmt(ev, sql)
 	s.emit(ev)
 }
